@@ -53,6 +53,8 @@ def make_config(rng):
     towers = []
     for k in range(nt):
         x, y = float(rng.uniform(0, xmax)), float(rng.uniform(0, ymax))
+        if rng.random() < 0.1:   # a tower well outside the flux map (beyond the default halo width in one direction)
+            x, y = float(rng.choice([-1.4, 2.6]) * xmax), float(rng.uniform(-0.5, 1.5) * ymax)
         towers.append({"name": f"tw{k}_{int(rng.integers(100))}", "lat": ref_lat + math.degrees(y / R),
                        "lon": ref_lon + math.degrees(x / (R * math.cos(math.radians(ref_lat)))), "z_m": float(rng.uniform(2, 12))})
     dom = {"nx": nx, "ny": ny, "xmax": xmax, "ymax": ymax, "nz": nz, "ref_lat": ref_lat, "ref_lon": ref_lon}
@@ -153,6 +155,15 @@ def variants(raw, rng):
     v["solver"]["closure"] = "MOST" if raw["solver"]["closure"] != "MOST" else "MOSTM"
     v["solver"].pop("analytic", None)
     out.append(("closure", v))
+    # configurations that leave optional sections out (documented defaults: MOST, single precision, dispersion, diamond source);
+    # twice in a row - the first one is varied in place by its user (end of run_case) before the second is parsed
+    for lab in ("no_solver_section", "no_solver_section_again", "partial_solver_section"):
+        v = copy.deepcopy(raw)
+        v.pop("solver", None)
+        v.pop("parallel", None)
+        if lab == "partial_solver_section":
+            v["solver"] = {"surface_flux_shape": "circle"}
+        out.append((lab, v))
     v = copy.deepcopy(raw)
     for t in v["towers"]:
         t["z_m"] = float(t["z_m"] * 1.37)
@@ -237,18 +248,22 @@ def run_case(case):
                     res = bldfm.run_bldfm_single(cfg, tw, met_index=i, surface_flux=user_flux)
                 counters["single_runs"] += 1
                 # ---------------- the documented pipeline, by hand
-                dom, sol = cfg.domain, cfg.solver
+                dom = cfg.domain
+                rsol = raw.get("solver") or {}
+                sol_closure = rsol.get("closure", "MOST")
+                sol_src_loc = tuple(rsol["src_loc"]) if rsol.get("src_loc") is not None else None
+                sol_shape = rsol.get("surface_flux_shape", "diamond")
                 step = {k: (v[i] if isinstance(v, list) else v) for k, v in raw["met"].items() if k != "timestamps"}
                 ws, wd = step.get("wind_speed", 5.0), step.get("wind_dir", 270.0)
                 mol = step.get("mol", 1e9)
                 u, v = compute_wind_fields(ws, wd)
                 with np.errstate(all="ignore"):
                     if step.get("z0") is not None:
-                        z, prof = vertical_profiles(n=dom.nz, meas_height=tw.z_m, wind=(u, v), z0=step["z0"], mol=mol, closure=sol.closure)
+                        z, prof = vertical_profiles(n=dom.nz, meas_height=tw.z_m, wind=(u, v), z0=step["z0"], mol=mol, closure=sol_closure)
                     else:
-                        z, prof = vertical_profiles(n=dom.nz, meas_height=tw.z_m, wind=(u, v), ustar=step["ustar"], mol=mol, closure=sol.closure)
-                    srf = user_flux if user_flux is not None else ideal_source((dom.nx, dom.ny), (dom.xmax, dom.ymax), src_loc=sol.src_loc,
-                                                                               shape=sol.surface_flux_shape)
+                        z, prof = vertical_profiles(n=dom.nz, meas_height=tw.z_m, wind=(u, v), ustar=step["ustar"], mol=mol, closure=sol_closure)
+                    srf = user_flux if user_flux is not None else ideal_source((dom.nx, dom.ny), (dom.xmax, dom.ymax), src_loc=sol_src_loc,
+                                                                               shape=sol_shape)
                     if raw["domain"].get("output_levels"):
                         levels = raw["domain"]["output_levels"]
                     elif raw["domain"].get("full_output"):
@@ -257,9 +272,9 @@ def run_case(case):
                         levels = dom.nz
                     exp = steady_state_transport_solver(srf, z, prof, (dom.xmax, dom.ymax), levels,
                                                         modes=tuple(raw["domain"].get("modes", (512, 512))), meas_pt=(tw.x, tw.y),
-                                                        footprint=bool(raw["solver"].get("footprint", False)),
-                                                        analytic=bool(raw["solver"].get("analytic", False)),
-                                                        halo=raw["domain"].get("halo"), precision=raw["solver"].get("precision", "single"))
+                                                        footprint=bool(rsol.get("footprint", False)),
+                                                        analytic=bool(rsol.get("analytic", False)),
+                                                        halo=raw["domain"].get("halo"), precision=rsol.get("precision", "single"))
                 ctx = dict(tower=tw.name, step=i, options=desc)
                 # the tower's local coordinates, from the raw latitude / longitude by the documented equirectangular map
                 rt = [t for t in raw["towers"] if t["name"] == tw.name][0]
@@ -296,6 +311,17 @@ def run_case(case):
             setattr(iface, n, fn)
     if cfg != cfg_before:
         viol.append({"what": "run_mutates_the_configuration", "before": repr(cfg_before.domain)[:300], "after": repr(cfg.domain)[:300], "options": desc})
+    # ... and now the user varies this parsed configuration in place (a sweep written as "cfg.solver.footprint = True"): that is the
+    # user's own object; configurations parsed later must not know about it
+    try:
+        cfg.solver.footprint = not cfg.solver.footprint
+        cfg.solver.closure = "CONSTANT" if cfg.solver.closure != "CONSTANT" else "MOSTM"
+        cfg.solver.precision = "double" if cfg.solver.precision == "single" else "single"
+        cfg.solver.surface_flux_shape = "point"
+        cfg.parallel.use_cache = not cfg.parallel.use_cache
+        cfg.output.directory = "./elsewhere"
+    except Exception:
+        pass
     inc = counters["spy_solver"] == 0
     b = {f"{k}:{v}": 1 for k, v in desc.items()}
     b["user_flux" if user_flux is not None else "ideal_source"] = 1
